@@ -298,7 +298,7 @@ def minimize_scalar(
     bracket: Optional[Sequence[float]] = None,
     bounds: Optional[Sequence[float]] = None,
     args: Union[Tuple, Tuple[Any]] = (),
-    method: str = "brent",
+    method: Optional[str] = None,
     tol: Optional[float] = None,
     options: Optional[dict] = None,
 ) -> spopt.OptimizeResult:
